@@ -80,7 +80,7 @@ Print Assumptions C01_msgpack_wire_ok.
      supportedb               Wire/MsgpackRT.v's [supported] as a boolean: ranges, lengths a 32-bit head
                               can carry, hashable map keys, no tags, time seconds within int64;
      leaves_ok                no float32 signalling NaN (comes back quiet), no unsigned >= 2^63 under
-                              SignedInteger (DecodeNaked hands back a negative int64: F07-1n), time
+                              SignedInteger (DecodeNaked reports an overflow since the F07-1n repair), time
                               seconds within int64;
      depth < MaxDepth; the whole input is a Go slice (len < 2^63).
    Every MsgpackHandle option vector (WriteExt, NoFixedNum, PositiveIntUnsigned, StringToRaw; decode side
@@ -148,8 +148,10 @@ Print Assumptions C01_binc_wire_ok.
    and the NaN payload (binc_losses).  Premises:
      Z.of_N (maxdepth d) = maxdepth O   one effective MaxDepth for both layers;
      wfbb                     Wire/Binc.v's [wfb] as a boolean: ranges, lengths fit an int, seconds within
-                              int64, no tags, map keys hashable and pairwise different once decoded;
-     leaves_ok                no unsigned >= 2^63 under SignedInteger (DecodeNaked hands back a negative int64);
+                              int64, no tags, map keys hashable and pairwise different once decoded, no
+                              unsigned >= 2^63 under SignedInteger;
+     leaves_ok                no unsigned >= 2^63 under SignedInteger (DecodeNaked reports an overflow since
+                              the F07-1n repair);
      depth < MaxDepth. *)
 Theorem C01_binc_roundtrip :
   forall (e : Binc.eopts) (d : Binc.dopts) (O : gopts) (pi : order) (t : ty) (v : gv)
